@@ -73,6 +73,23 @@ let run_case (c : case) : string =
     let strips = List.map (fun s -> List.map n_of_string (split_on ',' s)) (split_on ';' (get c "strips")) in
     "M=" ^ str_res (join ";" str_tri) (strips_model strips)
     ^ " S=" ^ join ";" str_tri (strips_spec strips)
+  | "mapkeys" ->
+    (* keyMap entries in the order the container iterates: ascending keys (std::map), or the order
+       the implementation reported for its unordered_map (ord=, filled in by the checker) *)
+    let w = get_int c "w" in
+    let keys = get_zlist c "keys" and vals = get_zlist c "vals" and im = get_zlist c "map" in
+    let off = z_of_string (get c "off") in
+    let rec zip_kv a b = (match a, b with x :: r, y :: s -> (x, y) :: zip_kv r s | _ -> []) in
+    let km0 = zip_kv keys vals in
+    let km =
+      if get c "ord" <> "" then
+        List.filter_map (fun k -> List.find_opt (fun (k', _) -> int_of_z k' = int_of_z k) km0) (get_zlist c "ord")
+      else List.sort (fun (a, _) (b, _) -> Stdlib.compare (int_of_z a) (int_of_z b)) km0 in
+    let pr r = join ";" (fun (k, v) -> str_of_z k ^ ":" ^ str_of_z v) r in
+    let sg = (w = 31) in
+    let fits = mk_fitsb (n_of_int w) sg im off km in
+    "M=" ^ str_res pr (mapkeys_model (mk_kty_of_N (n_of_int w)) km im off)
+    ^ " S=" ^ (if fits then pr (mapkeys_spec km im off) else "-")
   | _ -> "M=? S=?"
 
 let main () = List.iter (fun l -> if l <> "" then print_endline (run_case (parse_case l))) (read_lines ())
